@@ -22,7 +22,7 @@ ASSUMPTIONS = ["views compared to 1e-12 relative (same code on the same stored d
                "the stored definition is read through the uncached accessors (ctrlptsw / ctrlpts of non-rational shapes, knotvector, delta)"]
 
 SLUG_CONT = "C12-container-cache-vs-element-edit"
-VIEWS = ["ctrlpts", "weights", "ctrlpts2d", "evalpts", "bbox", "sample_size", "data", "tess", "single", "bezier"]
+VIEWS = ["ctrlpts", "weights", "ctrlpts2d", "evalpts", "bbox", "sample_size", "data", "tess", "single", "bezier", "tess_force"]
 
 
 # ------------------------------------------------------------------------------------------------ helpers
@@ -87,10 +87,13 @@ def read_view(obj, view):
     if view == "data":
         d = obj.data
         return {k: (list(map(list, d[k])) if k in ("control_points", "knotvector") else (list(d[k]) if isinstance(d[k], tuple) else d[k])) for k in d}
-    if view == "tess":
+    if view in ("tess", "tess_force"):
         if pd != 2 or obj.dimension != 3:
             return None
-        obj.tessellate()
+        if view == "tess":
+            obj.tessellate()
+        else:
+            obj.tessellate(force=True)          # re-tessellation on request gives the mesh again, not more of it
         return [[v.id, list(v.uv), list(v.data)] for v in obj.vertices], [list(f.data) for f in obj.faces]
     if view == "bezier":
         # derived from the definition by the library: the Bezier segments of a curve
@@ -352,7 +355,19 @@ def apply_mutator(obj, s, st_, ctx):
         return obj, m
     if m == "ops_copy":
         before = {v: read_view(obj, v) for v in ("ctrlpts", "evalpts")}
-        which = s["ints"][2] % 3
+        which = s["ints"][2] % 4
+        if which == 3:
+            # another operation that returns a new instance: one more spatial dimension; the result is edited, the input is not
+            r = operations.add_dimension(obj, offset=0.5)
+            ctx.check(r is not obj, "ops-copy-returned-input", "operations.add_dimension without inplace returned its input")
+            r.delta = 0.2 if pd == 1 else tuple([0.2] * pd)
+            pick_ = pick_insert(degs[0], kvs[0], szs[0], ["in", s["ints"][1], 0.5, 0])
+            if pick_ is not None and szs[0] < 10:
+                operations.insert_knot(r, [pick_[0]] + [None] * (pd - 1), [1] + [0] * (pd - 1))
+            for v, val in before.items():
+                ctx.check(_deep_eq(read_view(obj, v), val), "copy-not-independent", "editing the shape returned by add_dimension changed view '%s' of the input" % v)
+            ctx.check(build.kvs_of(obj) == kvs and build.sizes_of(obj) == szs, "copy-not-independent", "editing the shape returned by add_dimension changed the definition of the input")
+            return obj, m
         if which == 0:
             r, what = operations.translate(obj, s["vec"][:dim]), "translate"
         elif which == 1:
